@@ -406,6 +406,16 @@ class Run(object):
 
     # -- driver ----------------------------------------------------------------------------------
     def run(self):
+        from asynq import _debug
+        old_max = _debug.options.MAX_TASK_STACK_SIZE
+        if "maxstack" in self.prog:
+            _debug.options.MAX_TASK_STACK_SIZE = self.prog["maxstack"]
+        try:
+            return self._run()
+        finally:
+            _debug.options.MAX_TASK_STACK_SIZE = old_max
+
+    def _run(self):
         _sched.reset()
         s = _sched.get_scheduler()
         s.on_before_batch_flush.subscribe(self._before)
